@@ -6,7 +6,7 @@ open Cocls Cocls.Proto Cocls.Alloc
 def fuel : Nat := 1000000
 
 def catText : Cat → String
-  | .frame => "frame" | .growth => "growth" | .rq => "ready-queue-node" | .other => "other"
+  | .frame => "frame" | .growth => "growth" | .rgrowth => "resolve-suspend-point-growth" | .rq => "ready-queue-node" | .other => "other"
 
 def kindText : Kind → String
   | .v => "v" | .e => "e" | .d => "d"
